@@ -7,6 +7,12 @@ PENDING = "check not built yet in this session (construction order: DESIGN.md se
 NOT_APPLICABLE = {("C%02d" % i): PENDING for i in range(1, 21)}
 
 TEXT = {
+    "C13": {
+        "text": "Generic theorems about a small-step lock machine (any number of threads, any programs, any schedule): when every method is well locked, every access to guarded state is made by the mutex holder (race freedom, atomicity of invocations in acquisition order) and some thread can always progress (deadlock freedom). The instance theorem evaluates well-lockedness on the lock summary regenerated from message.go / field/composite.go by a go/ast translator on every run, for exactly the operations the property lists. The runtime side (memory model, scheduler, map fault detection) is not modelled: -race stress runs cross-check the translator and check that every Pack output decodes to written values (partial).",
+        "design_ref": "DESIGN.md section 6 C13",
+        "note": "Trusted: Coq kernel, the syntactic lock/access translator, the Go race detector for the cross-check. The lock machine abstracts each guarded access as one atomic step.",
+        "technique": "Rocq theorems over a lock machine + source translator (go/ast) + race-detector stress run",
+    },
     "C12": {
         "text": "Proved: MarshalJSON succeeds exactly when Pack does, every object lists its keys in the StringsByInt order of its key set regardless of map order, and the message object's keys are the presence set. The JSON text itself (escaping, numbers, hex) is compared byte for byte with the library on histories with arbitrary byte values; validity, key order, the decode round trip and identical re-pack are checked by the oracle (partial: no theorem yet for syntactic validity and the decode round trip).",
         "design_ref": "DESIGN.md section 6 C12",
